@@ -6,6 +6,7 @@ import JxlModel.Driver.C19
 import JxlModel.Driver.C17
 import JxlModel.Driver.C14
 import JxlModel.Driver.C18
+import JxlModel.Driver.C16
 
 def main (args : List String) : IO UInt32 := do
   match args with
@@ -19,4 +20,6 @@ def main (args : List String) : IO UInt32 := do
   | ["c14"] => Jxl.Driver.C14.main; return 0
   | ["hdrenc"] => Jxl.Driver.C14.mainEnc; return 0
   | ["c18"] => Jxl.Driver.C18.main; return 0
+  | ["c16"] => Jxl.Driver.C16.main false; return 0
+  | ["c16", "alg"] => Jxl.Driver.C16.main true; return 0
   | _ => IO.eprintln "usage: jxlmodel <component>"; return 2
